@@ -42,6 +42,7 @@ pub fn tramp_request(inv: &Inv, id: u64, amount_msat: u64, total: u64, expiry: u
         metadata: Metadata::Tramp { invoice: inv.facts.clone(), amt: AmtField::Absent, extra_before: vec![], extra_after: vec![] },
         raw_payload_hex: None,
         label: RefLabel::Continue,
+        gate: Gate::None,
     };
     request_json(&spec, height)
 }
